@@ -11,6 +11,7 @@ from collections import defaultdict
 from functools import partial
 import inspect
 from itertools import chain
+import keyword
 import operator as op
 import re
 import string
@@ -59,6 +60,23 @@ _TYPE_MAPPING = {
     "number": Number,
     "string": String,
 }
+
+
+_ELEMENT_CLASS_NAMES = (
+    "AllOf",
+    "AnyOf",
+    "Array",
+    "Boolean",
+    "Element",
+    "Integer",
+    "Not",
+    "Nothing",
+    "Null",
+    "Number",
+    "Object",
+    "OneOf",
+    "String",
+)
 
 
 class _ParseState:
@@ -522,8 +540,35 @@ def _keyword_filter(type_: Type) -> Callable[[Dict[str, Any]], Dict[str, Any]]:
     return _filter
 
 
+# Names which a generated module imports or uses, plus capitalised keywords.
+_RESERVED_CLASS_NAMES = set(keyword.kwlist) | {
+    "Any",
+    "List",
+    "Union",
+    "Maybe",
+    "Property",
+    *_ELEMENT_CLASS_NAMES,
+}
+
+
 def _title_format(name: str) -> str:
-    """Convert titles in schemas to class names."""
+    """Convert titles in schemas to class names.
+
+    Always produces a valid class name which does not shadow a name used
+    by generated modules.
+    """
+    title = _title_words(name)
+    if not title:
+        # No usable ASCII letters: spell out the characters instead.
+        title = _title_words(_parse_attribute_name(name))
+    if not title:
+        title = "Untitled"
+    if title in _RESERVED_CLASS_NAMES:
+        title += "_"
+    return title
+
+
+def _title_words(name: str) -> str:
     words = list(filter(None, re.split("[^a-zA-Z0-9]", name)))
     segments = chain.from_iterable(
         [
